@@ -221,13 +221,123 @@ def make_ext_grid():
     return fn
 
 
+def make_ext_grid_shared_bus():
+    """several in-service ext_grids at one (fused) bus: their short-circuit admittances add up (parallel connection); ext_grids out of
+    service contribute nothing - the real _add_ext_grid_sc_impedance with two symbolic feeders mapped to the same ppc bus"""
+    def fn(ctx):
+        bbus = ctx.load("pandapower.build_bus")
+        from pandapower.pypower.idx_bus_sc import C_MAX, bus_cols_sc
+        from pandapower.pypower.idx_bus import GS, BS, bus_cols
+        s1, s2 = ctx.var("s_sc_1", 10., 10000.), ctx.var("s_sc_2", 10., 10000.)
+        k1, k2 = ctx.var("k_rx_1", 0.01, 0.9), ctx.var("k_rx_2", 0.01, 0.9)
+        rx1, rx2 = 2 * k1 / (1 - k1 * k1), 2 * k2 / (1 - k2 * k2)
+        S = ctx.var("base_mva", 1., 1000.)
+        c = ctx.var("c", 0.9, 1.1)
+        net = type("N", (dict,), {"__getattr__": lambda s, kk: s[kk]})()
+        net["_options"] = {"mode": "sc", "case": "max"}
+        net["_pd2ppc_lookups"] = {"bus": np.array([0, 0, 0])}          # buses 0, 1, 2 fused into ppc bus 0
+        net["_is_elements"] = {"ext_grid": np.array([True, False, True])}
+        eg = pd.DataFrame({"bus": [0, 2, 1]})
+        eg["s_sc_max_mva"] = ctx.series([s1, s1, s2])
+        eg["rx_max"] = ctx.series([rx1, rx1, rx2])
+        net["ext_grid"] = eg
+        bus = ctx.obj(np.zeros((1, bus_cols + bus_cols_sc)))
+        bus[0, C_MAX] = c
+        ppc = {"bus": bus, "baseMVA": S}
+        bbus._add_ext_grid_sc_impedance(net, ppc)
+        g, b = bus[0, GS] / S, bus[0, BS] / S
+        # feeder i: |y_i| = s_i/(c S) p.u.... in the code's units z = c/s_sc, x = z/sqrt(rx^2+1) = z (1-k^2)/(1+k^2), r = rx x = z 2k/(1+k^2)
+        def y(s_, k_):
+            z = c * S / s_
+            x, r = z * (1 - k_ * k_) / (1 + k_ * k_), z * 2 * k_ / (1 + k_ * k_)
+            d = r * r + x * x
+            return r / d, -x / d
+        g1, b1 = y(s1, k1)
+        g2, b2 = y(s2, k2)
+        ctx.eq("conductance_of_parallel_ext_grids_adds_up", g, g1 + g2)
+        ctx.eq("susceptance_of_parallel_ext_grids_adds_up", b, b1 + b2)
+    return fn
+
+
+def make_kt():
+    """IEC 60909-0 (12a): K_T = 0.95 cmax / (1 + 0.6 x_T), x_T the relative reactance sqrt(vk^2 - vkr^2)/100 of the transformer
+    (independent of the rating), and 1 for power station units - the real _transformer_correction_factor"""
+    def fn(ctx):
+        bb = ctx.load("pandapower.build_branch")
+        vk = ctx.var("vk_percent", 1., 25.)
+        m = ctx.var("m_vkr", 0.05, 0.95)            # vkr = vk (1-m^2)/(1+m^2): sqrt(vk^2 - vkr^2) = vk 2m/(1+m^2)
+        vkr = vk * (1 - m * m) / (1 + m * m)
+        sn = ctx.var("sn_mva", 0.1, 1000.)
+        cmax = ctx.var("cmax", 1.0, 1.1)
+        df = pd.DataFrame({"power_station_unit": [False, True, None]})
+        kt = bb._transformer_correction_factor(df, ctx.obj(np.array([vk, vk, vk])), ctx.obj(np.array([vkr, vkr, vkr])),
+                                               ctx.obj(np.array([sn, sn, sn])), ctx.obj(np.array([cmax, cmax, cmax])))
+        xt = vk * 2 * m / (1 + m * m) / 100
+        ctx.eq("kt_is_0.95_cmax_over_1_plus_0.6_xt", kt[0] * (1 + xt * 0.6), cmax * 0.95)
+        ctx.eq("kt_of_a_missing_power_station_flag_is_the_network_transformer_value", kt[2] * (1 + xt * 0.6), cmax * 0.95)
+        ctx.eq("kt_of_a_power_station_unit_transformer_is_1", kt[1] * sn, sn)
+    return fn
+
+
+def make_gen_impedance():
+    """synchronous generator: Z_G = R_G + j xd'' Ur^2/Sr in ohm, shunt admittance at the bus = 1/Z_G on the bus base as written by
+    _add_gen_sc_z_kg_ks; K_G = Un/(Ur (1+pg)) * cmax / (1 + xd'' sin(phi)) (IEC 60909-0 (18)); R_Gf for the peak current = 0.15 / 0.07 / 0.05 xd''"""
+    def fn(ctx):
+        pc = ctx.load("pandapower.shortcircuit.ppc_conversion")
+        from pandapower.pypower.idx_bus_sc import C_MAX, K_G, V_G, GS_P, BS_P, GS_GEN, BS_GEN, bus_cols_sc
+        from pandapower.pypower.idx_bus import GS, BS, bus_cols
+        vn_gen, vn_net = ctx.var("vn_gen_kv", 0.4, 30.), ctx.var("vn_bus_kv", 0.4, 30.)
+        sn = ctx.var("sn_mva", 1., 500.)
+        rd, xd = ctx.var("rdss_ohm", 0.001, 5.), ctx.var("xdss_pu", 0.05, 0.5)
+        pg = ctx.var("pg_percent", 0., 10.)
+        k = ctx.var("k_phi", 0.05, 0.95)            # cos phi = (1-k^2)/(1+k^2), sin phi = 2k/(1+k^2)
+        cos = (1 - k * k) / (1 + k * k)
+        c = ctx.var("cmax", 1.0, 1.1)
+        g0, b0 = ctx.var("gs_before", 0., 1.), ctx.var("bs_before", -1., 1.)
+        net = _N()
+        net["_is_elements_final"] = {"gen": np.array([True, False])}
+        net["_pd2ppc_lookups"] = {"bus": np.array([0, 0])}
+        gen = pd.DataFrame({"bus": [0, 1]})
+        for col, v in (("vn_kv", vn_gen), ("sn_mva", sn), ("rdss_ohm", rd), ("xdss_pu", xd), ("pg_percent", pg), ("cos_phi", cos)):
+            gen[col] = ctx.series([v, v])
+        gen["power_station_trafo"] = np.nan
+        net["gen"] = gen
+        b = pd.DataFrame({"x": [0, 1]})
+        b["vn_kv"] = ctx.series([vn_net, vn_net])
+        net["bus"] = b
+        bus = ctx.obj(np.zeros((1, bus_cols + bus_cols_sc)))
+        bus[0, C_MAX] = c
+        bus[0, GS], bus[0, BS] = g0, b0
+        ppc = {"bus": bus}
+        pc._add_gen_sc_z_kg_ks(net, ppc)
+        xg = xd * vn_gen * vn_gen / sn
+        zb = vn_net * vn_net
+        g, bb_ = bus[0, GS] - g0, bus[0, BS] - b0
+        d = rd * rd + xg * xg
+        ctx.eq("gen_conductance_is_real_part_of_1_over_zg_only_in_service_generators", g * d, rd * zb)
+        ctx.eq("gen_susceptance_is_imag_part_of_1_over_zg", bb_ * d, -xg * zb)
+        ctx.eq("gen_share_columns_hold_the_generator_admittance", bus[0, GS_GEN] * d, rd * zb)
+        ctx.eq("gen_share_b_columns_hold_the_generator_admittance", bus[0, BS_GEN] * d, -xg * zb)
+        sin = 2 * k / (1 + k * k)
+        ctx.eq("kg_is_un_over_urg_cmax_over_1_plus_xd_sin_phi", bus[0, K_G] * (vn_gen * (1 + pg / 100)) * (1 + xd * sin), vn_net * c)
+        ctx.eq("v_g_is_the_generator_rated_voltage", bus[0, V_G], vn_gen)
+        # fictitious resistance for the peak current: ratio G/B of 1/(R_Gf + j X) is -R_Gf/X
+        gp, bp = bus[0, GS_P], bus[0, BS_P]
+        ratio = 0.15 if vn_gen <= 1. else (0.07 if sn < 100 else 0.05)      # forks the path in symbolic mode
+        ctx.eq("fictitious_resistance_for_ip_is_0.15_0.07_0.05_of_xd", gp, -bp * ratio)
+    return fn
+
+
 def instances(tier):
     return [Inst("ikss_skss", make_ikss(), nvars=24, samples=3, timeout_ms=60000, meta=dict(part="ikss/skss/2ph/base")),
             Inst("kappa_radial", make_kappa("radial"), nvars=12, samples=3, meta=dict(part="kappa", method="radial")),
             Inst("kappa_method_b", make_kappa("B"), nvars=12, samples=3, meta=dict(part="kappa", method="B meshed")),
             Inst("kappa_method_b_lv", make_kappa("B_lv"), nvars=12, samples=3, meta=dict(part="kappa", method="B meshed, low voltage")),
             Inst("kappa_method_c_single_source", make_kappa_c(), nvars=16, samples=3, meta=dict(part="kappa", method="C, inverse_y True/False")),
-            Inst("ext_grid_impedance", make_ext_grid(), nvars=16, samples=3, meta=dict(part="ext_grid"))] + \
+            Inst("ext_grid_impedance", make_ext_grid(), nvars=16, samples=3, meta=dict(part="ext_grid")),
+            Inst("ext_grid_impedance_shared_bus", make_ext_grid_shared_bus(), nvars=16, samples=3, meta=dict(part="ext_grid", n=2)),
+            Inst("transformer_correction_factor_kt", make_kt(), nvars=12, samples=3, meta=dict(part="kt")),
+            Inst("generator_impedance_kg", make_gen_impedance(), nvars=20, samples=3, meta=dict(part="gen"))] + \
            [Inst(f"fault_impedance_{k}", make_fault_impedance(k), nvars=12, samples=3, meta=dict(part="fault impedance", kind=k)) for k in ("resistive", "reactive", "both")]
 
 
